@@ -1,3 +1,27 @@
 #include "slu_mt_ddefs.h"
-int_t g_s, g_q;   /* ghost: an arbitrary supernode and an arbitrary offset in its list */
-void h_fixupL(void){ int_t n; int_t *pr; GlobalLU_t *G; fixupL(n,pr,G); __CPROVER_assert(0, "canary: fixupL returns"); }
+#include <stdlib.h>
+/* inputs */
+int_t in_n, in_perm_r[CAP]; GlobalLU_t in_Glu;
+int_t in_xsup[CAP+1], in_xsup_end[CAP], in_supno[CAP+1], in_xlsub[CAP+1], in_xlsub_end[CAP], in_lsub[LC];
+/* ghosts: an arbitrary supernode g_s and an arbitrary offset g_q in its list; pre-state copies; allocation counters */
+int_t g_s, g_q, g_beg0[CAP], g_end0[CAP], g_lsub0[LC]; int g_n_alloc, g_n_free;
+/* the temporary of fixupL: an object of EXACTLY the requested size (cbmc wants constant sizes: case split), never NULL (the real intMalloc
+ * exits the process on NULL) */
+#define AL(k) if (n == (k)) p = malloc((k) * sizeof(int_t)); else
+int_t *intMalloc(int_t n) {
+  int_t *p = 0;
+  __CPROVER_assert(0 <= n && n <= LC, "temporary: as many entries as the lists hold together");
+  AL(0) AL(1) AL(2) AL(3) AL(4) AL(5) AL(6) AL(7) AL(8) AL(9) AL(10) AL(11) AL(12) AL(13) AL(14) AL(15) AL(16) p = 0;
+  __CPROVER_assume(p != 0);
+  g_n_alloc++; return p;
+}
+_Static_assert(LC <= 16, "intMalloc case split covers LC");
+void superlu_free(void *p) { g_n_free++; free(p); }
+void h_fixupL(void) {
+  in_Glu.xsup = in_xsup; in_Glu.xsup_end = in_xsup_end; in_Glu.supno = in_supno; in_Glu.xlsub = in_xlsub; in_Glu.xlsub_end = in_xlsub_end; in_Glu.lsub = in_lsub;
+  fixupL(in_n, in_perm_r, &in_Glu);
+  __CPROVER_assert(0, "canary: fixupL returns");
+  if (in_supno[in_n] >= 2 && g_beg0[1] < g_beg0[0] && g_beg0[2] < g_beg0[1] && g_s == 1 && g_end0[0] - g_beg0[0] > g_beg0[0])
+    __CPROVER_assert(0, "canary: supernodes stored in the reverse order of their numbers, the first list longer than the room in front of it");
+  if (in_supno[in_n] == CAP - 1) __CPROVER_assert(0, "canary: CAP singleton supernodes");
+}
